@@ -120,6 +120,22 @@ def run(ctx):
             ctx.violation('server hash differs from BigInteger(sha1(id||secret||key)).toString(16) = %s'
                           % java_hex(d), {'server_id': sid, 'secret': hx(secret), 'key': hx(key), 'impl': got},
                           key={'server_id': sid, 'secret': hx(secret), 'key': hx(key)})
+    # the secret and the key as bytes-like objects (bytearray, memoryview): the same bytes, the same hash
+    for _ in range(ctx.scale(20, 200)):
+        sid_ = rng.choice(['', 'srv', 'é'])
+        sec_ = bytes(rng.randrange(256) for _ in range(16))
+        key_ = bytes(rng.randrange(256) for _ in range(rng.choice([1, 40, 162])))
+        want_ = java_hex(hashlib.sha1(sid_.encode('utf-8') + sec_ + key_).digest())
+        for mk_ in (bytearray, memoryview):
+            ctx.case(('bytes-like', mk_.__name__, sid_, sec_, key_))
+            try:
+                got_ = encryption.generate_verification_hash(sid_, mk_(sec_), mk_(key_))
+            except TypeError:
+                continue                       # refusing a non-bytes argument is not a wrong hash
+            if got_ != want_:
+                ctx.violation('server hash of (%r, %s secret, %s key) is %s; the same bytes as `bytes` hash to %s'
+                              % (sid_, mk_.__name__, mk_.__name__, got_, want_), {'server_id': sid_, 'type': mk_.__name__},
+                              key={'kind': 'bytes-like', 'type': mk_.__name__})
     for sid, want_s in VECTORS:
         got = encryption.generate_verification_hash(sid, b'', b'')
         ctx.case(('vector', sid))
@@ -131,7 +147,7 @@ def run(ctx):
     import simnet
     from refserver import RefServer
     import minecraft.networking.connection as C
-    for sid in ('', 'srv-é', 'a1b2c3', '\ufeffsrv', '\ufeff'):
+    for sid in ('', 'srv-é', 'a1b2c3', '\ufeffsrv', '\ufeff', '-76cc6e37d6a586ef', '--', '-x'):      # (only '-' itself means offline)
         joins = []
 
         # the REAL AuthenticationToken.join: what is judged is the `serverId` of the body posted to the session service
